@@ -29,6 +29,22 @@ func bases(quick bool) []base {
 	b = append(b, base{"every-honest-vote-needed", consnet.Scenario{Powers: []int64{1, 1, 1, 1}, Byz: 3, Heights: 2, Rules: []consnet.Rule{
 		{Kind: "byz-silent", Msg: "prevote", Round: 0}, {Kind: "byz-silent", Msg: "precommit", Round: 0},
 		{Kind: "byz-silent", Msg: "prevote", Height: 2, Round: 0}, {Kind: "byz-silent", Msg: "precommit", Height: 2, Round: 0}}}})
+	// a height that goes through six undecided rounds with a prevote-wait each (two nodes do not see the
+	// proposal, so the prevotes split 2:2): a restart late in that height replays more timeouts than the
+	// ticker buffers.  Only node 1 is crashed, at the writes of the last third of its log.
+	var many []consnet.Rule
+	plain := consnet.Scenario{Powers: []int64{1, 1, 1, 1}, Byz: -1, Heights: 1}
+	for r := int64(0); r < 6; r++ {
+		p := consnet.ProposerAt(&plain, 1, r)
+		held := 0
+		for j := 3; j >= 0 && held < 2; j-- {
+			if j != p {
+				many = append(many, consnet.Rule{Kind: "hold", Node: j, Msg: "proposal", Round: r})
+				held++
+			}
+		}
+	}
+	b = append(b, base{"six-undecided-rounds", consnet.Scenario{Powers: []int64{1, 1, 1, 1}, Byz: -1, Heights: 1, Rules: many}})
 	if !quick {
 		b = append(b, base{"split-precommit-two-rounds", consnet.Scenario{Powers: []int64{1, 1, 1, 1}, Byz: 0, Heights: 2, Rules: []consnet.Rule{{Kind: "byz-split", Msg: "precommit", Round: 0, Set: []int{2}, Alt: "nil"}, {Kind: "hold", Node: 1, Msg: "prevote", Round: 0}}}})
 	}
@@ -107,7 +123,14 @@ func main() {
 				continue
 			}
 			w := writes[bi][n]
-			for k := 1; k <= w; k++ {
+			k0 := 1
+			if b.name == "six-undecided-rounds" {
+				if n != 1 {
+					continue
+				}
+				k0 = w - w/3
+			}
+			for k := k0; k <= w; k++ {
 				delays := []int{0, 1}
 				if run.Quick() && k%4 != 0 {
 					delays = []int{0}
@@ -131,6 +154,9 @@ func main() {
 			}
 		}
 		// two crashes: the second one at a write of the node's life after the first restart
+		if b.name == "six-undecided-rounds" {
+			continue
+		}
 		if bi == 0 || !run.Quick() {
 			n := 1
 			w := writes[bi][n]
